@@ -319,10 +319,10 @@ def notifyEffect (w : World) (o : Nat) : Except Panic World := do
   let s ← w.getNotify o
   let sy := w.ths.syncStore s.sync .rel
   let w := w.setObj o (.notify { s with sync := sy, notified := true })
-  let act := w.ths.activeT
-  -- the waiter is woken (this is not `Thread::unpark`: a thread that is not blocked gets no `park` token)
-  pure (w.forOthers (fun op => op.obj == o) fun th =>
-    ({ th with causality := th.causality.join act.causality }).wake)
+  -- the waiter is woken (this is not `Thread::unpark`: a thread that is not blocked gets no `park` token; and
+  -- nothing is acquired here: the waiter synchronises with the notifiers when it returns from `wait`, a thread
+  -- whose pending operation is its own `notify` on this object acquires nothing — repair of finding F26)
+  pure (w.forOthers (fun op => op.obj == o) Thread.wake)
 
 /-! ### channel -/
 
